@@ -216,7 +216,7 @@ def scenarios(ctx):
     # ---- phased VCF as the only phase input: 1..7 interleaved sets, both encodings of g, both tags ----
     n = 0
     for k in range(1, 8):
-        for rep in range(2 if q else 8):
+        for rep in range(2 if q else 20):
             w = make_world(rng, 1, 2 * k + rng.randint(0, 2), pre=["none", "PS", "HP"][rep % 3], sets=k)
             for enc in ("PS", "HP"):
                 scs.append({"kind": f"interleaved{k}", "pre": w and ["none", "PS", "HP"][rep % 3], "world": w,
@@ -224,7 +224,7 @@ def scenarios(ctx):
                 n += 1
     ctx.notes["interleaved_set_scenarios"] = n
     # ---- seeded random: more samples, more sites, longer histories ----
-    nr = 150 if q else 2500
+    nr = 150 if q else 8000
     for i in range(nr):
         ns = rng.choice([1, 2, 2, 3])
         w = make_world(rng, ns, rng.randint(3, 8), pre=rng.choice(["none", "PS", "HP", "mixed"]), paired=rng.choice([0, 0, 0.4]))
